@@ -1,6 +1,6 @@
 /-
   C04 — the dispatch rule.  For every world whose lookups are sound w.r.t. a flat binding
-  list (`Sound`; established for the real wrappers in `Props/C04KB.lean`), the decision of
+  list (`Sound`; established for the `KeyBindings` registry in `Props/C04World.lean`), the decision of
   one pass of the matching loop is the documented rule (`Rule`), stated declaratively.
 -/
 import Ptk.Props.C04
@@ -247,15 +247,18 @@ def exactB (ks : List Key) (b : Binding) : Bool := ks.length == b.keys.length &&
 def longerB (ks : List Key) (b : Binding) : Bool :=
   decide (ks.length < b.keys.length) && zipMatch b.keys ks
 
-/-- the world's lookups are those of the flat binding list `B w` (in registration order), and
-    looking up changes neither that list nor the value of any filter -/
-structure Sound (I : Iface σ) (B : σ → List Binding) : Prop where
-  for_val : ∀ w ks, (I.getFor w ks).2 = matchFor (B w) ks
-  for_B : ∀ w ks, B (I.getFor w ks).1 = B w
-  for_eval : ∀ w ks f, I.evalF (I.getFor w ks).1 f = I.evalF w f
-  start_val : ∀ w ks, (I.getStart w ks).2 = matchStarting (B w) ks
-  start_B : ∀ w ks, B (I.getStart w ks).1 = B w
-  start_eval : ∀ w ks f, I.evalF (I.getStart w ks).1 f = I.evalF w f
+/-- in every world satisfying `G` (an invariant kept by the lookups), the world's lookups are
+    those of the flat binding list `B w` (in registration order), and looking up changes neither
+    that list nor the value of any filter -/
+structure Sound (I : Iface σ) (B : σ → List Binding) (G : σ → Prop) : Prop where
+  for_val : ∀ w ks, G w → (I.getFor w ks).2 = matchFor (B w) ks
+  for_B : ∀ w ks, G w → B (I.getFor w ks).1 = B w
+  for_eval : ∀ w ks f, G w → I.evalF (I.getFor w ks).1 f = I.evalF w f
+  for_G : ∀ w ks, G w → G (I.getFor w ks).1
+  start_val : ∀ w ks, G w → (I.getStart w ks).2 = matchStarting (B w) ks
+  start_B : ∀ w ks, G w → B (I.getStart w ks).1 = B w
+  start_eval : ∀ w ks f, G w → I.evalF (I.getStart w ks).1 f = I.evalF w f
+  start_G : ∀ w ks, G w → G (I.getStart w ks).1
 
 /-- active exact matches / active eager exact matches for the keys `ks` -/
 def PA (act : F → Bool) (ks : List Key) (c : Binding) : Bool := exactB ks c && act c.filter
@@ -302,20 +305,25 @@ inductive Rule (bs : List Binding) (act : F → Bool) (buf : List KP) (flush : B
       Rule bs act buf flush .dropOne
 
 section
-variable {I : Iface σ} {B : σ → List Binding}
+variable {I : Iface σ} {B : σ → List Binding} {G : σ → Prop}
 
-theorem getMatches_sound (hS : Sound I B) (w : σ) (buf : List KP) :
+theorem getMatches_sound (hS : Sound I B G) (w : σ) (hG : G w) (buf : List KP) :
     (getMatches I w buf).2 = (matchFor (B w) (keysOf buf)).filter (fun b => I.evalF w b.filter) ∧
-    B (getMatches I w buf).1 = B w ∧ ∀ f, I.evalF (getMatches I w buf).1 f = I.evalF w f := by
+    B (getMatches I w buf).1 = B w ∧ (∀ f, I.evalF (getMatches I w buf).1 f = I.evalF w f) ∧
+    G (getMatches I w buf).1 := by
   unfold getMatches
-  refine ⟨?_, hS.for_B _ _, hS.for_eval _ _⟩
-  simp only [hS.for_val, hS.for_eval]
+  refine ⟨?_, hS.for_B _ _ hG, fun f => hS.for_eval _ _ f hG, hS.for_G _ _ hG⟩
+  have : (fun (b : Binding) => I.evalF (I.getFor w (keysOf buf)).1 b.filter) =
+      (fun (b : Binding) => I.evalF w b.filter) := by
+    funext b; exact hS.for_eval _ _ _ hG
+  simp only [hS.for_val _ _ hG, this]
 
-theorem getMatches_last (hS : Sound I B) (w : σ) (buf : List KP) :
+theorem getMatches_last (hS : Sound I B G) (w : σ) (hG : G w) (buf : List KP) :
     (getMatches I w buf).2.getLast? = pickR (PA (I.evalF w) (keysOf buf)) (B w) := by
-  rw [(getMatches_sound hS w buf).1, lastActive]; rfl
+  rw [(getMatches_sound hS w hG buf).1, lastActive]; rfl
 
-theorem scan_sound (hS : Sound I B) (buf : List KP) (n : Nat) (w : σ) :
+theorem scan_sound (hS : Sound I B G) (buf : List KP) (n : Nat) (w : σ) (hG : G w) :
+    G (scan I buf n w).1 ∧
     B (scan I buf n w).1 = B w ∧ (∀ f, I.evalF (scan I buf n w).1 f = I.evalF w f) ∧
     match (scan I buf n w).2 with
     | some (i, b) => 1 ≤ i ∧ i ≤ n ∧ Chosen (B w) (PA (I.evalF w) (keysOf (buf.take i))) b ∧
@@ -324,37 +332,37 @@ theorem scan_sound (hS : Sound I B) (buf : List KP) (n : Nat) (w : σ) :
   induction n generalizing w with
   | zero =>
     simp only [scan]
-    refine ⟨by simp, by simp, ?_⟩
+    refine ⟨hG, by simp, by simp, ?_⟩
     intro j h1 h2; omega
   | succ n ih =>
     simp only [scan]
-    have hg := getMatches_sound hS w (buf.take (n + 1))
-    have hl := getMatches_last hS w (buf.take (n + 1))
+    have hg := getMatches_sound hS w hG (buf.take (n + 1))
+    have hl := getMatches_last hS w hG (buf.take (n + 1))
     cases hp : (getMatches I w (buf.take (n + 1))).2.getLast? with
     | some b =>
       simp only []
-      refine ⟨hg.2.1, hg.2.2, Nat.le_add_left _ _, Nat.le_refl _, ?_, ?_⟩
+      refine ⟨hg.2.2.2, hg.2.1, hg.2.2.1, Nat.le_add_left _ _, Nat.le_refl _, ?_, ?_⟩
       · rw [hp] at hl; exact pickR_some hl.symm
       · intro j h1 h2; omega
     | none =>
       simp only []
-      have ih := ih (getMatches I w (buf.take (n + 1))).1
+      have ih := ih (getMatches I w (buf.take (n + 1))).1 hg.2.2.2
       rw [hp] at hl
       have hnone := pickR_none.mp hl.symm
-      have hev : I.evalF (getMatches I w (buf.take (n + 1))).1 = I.evalF w := funext hg.2.2
+      have hev : I.evalF (getMatches I w (buf.take (n + 1))).1 = I.evalF w := funext hg.2.2.1
       rw [hg.2.1, hev] at ih
-      refine ⟨ih.1, ih.2.1, ?_⟩
+      refine ⟨ih.1, ih.2.1, ih.2.2.1, ?_⟩
       cases hs : (scan I buf n (getMatches I w (buf.take (n + 1))).1).2 with
       | none =>
         simp only [hs] at ih ⊢
         intro j h1 h2
         by_cases hj : j = n + 1
         · subst hj; exact hnone
-        · exact ih.2.2 j h1 (by omega)
+        · exact ih.2.2.2 j h1 (by omega)
       | some r =>
         obtain ⟨i, b⟩ := r
         simp only [hs] at ih ⊢
-        obtain ⟨_, _, a1, a2, a3, a4⟩ := ih
+        obtain ⟨_, _, _, a1, a2, a3, a4⟩ := ih
         refine ⟨a1, by omega, a3, ?_⟩
         intro j h1 h2
         by_cases hj : j = n + 1
@@ -364,20 +372,23 @@ theorem scan_sound (hS : Sound I B) (buf : List KP) (n : Nat) (w : σ) :
 /-- **Dispatch**: in a world with sound lookups the decision of one pass of the matching loop
     is the one demanded by the rule, for the bindings and filter values at that moment; the
     lookups change neither. -/
-theorem dispatch_spec (hS : Sound I B) (ps : PS σ) (flush : Bool) :
+theorem dispatch_spec (hS : Sound I B G) (ps : PS σ) (hG : G ps.w) (flush : Bool) :
     Rule (B ps.w) (I.evalF ps.w) ps.buffer flush (decideOf I ps flush).2 ∧
     B (decideOf I ps flush).1 = B ps.w ∧
-    ∀ f, I.evalF (decideOf I ps flush).1 f = I.evalF ps.w f := by
+    (∀ f, I.evalF (decideOf I ps flush).1 f = I.evalF ps.w f) ∧
+    G (decideOf I ps flush).1 := by
   unfold decideOf
   by_cases hb : ps.buffer.isEmpty = true
   · simp only [hb, if_true]
-    exact ⟨.idle (by simpa using hb), by simp, by simp⟩
+    exact ⟨.idle (by simpa using hb), by simp, by simp, hG⟩
   · simp only [hb]
     have hne : ps.buffer ≠ [] := by simpa using hb
-    have g := getMatches_sound hS ps.w ps.buffer
-    have gl := getMatches_last hS ps.w ps.buffer
+    have g := getMatches_sound hS ps.w hG ps.buffer
+    have gl := getMatches_last hS ps.w hG ps.buffer
     -- the world after the (optional) prefix lookup
-    have h2 : B (if flush = true then ((getMatches I ps.w ps.buffer).1, false)
+    have h2 : G (if flush = true then ((getMatches I ps.w ps.buffer).1, false)
+          else isPrefixOfLonger I (getMatches I ps.w ps.buffer).1 ps.buffer).1 ∧
+        B (if flush = true then ((getMatches I ps.w ps.buffer).1, false)
           else isPrefixOfLonger I (getMatches I ps.w ps.buffer).1 ps.buffer).1 = B ps.w ∧
         (∀ f, I.evalF (if flush = true then ((getMatches I ps.w ps.buffer).1, false)
           else isPrefixOfLonger I (getMatches I ps.w ps.buffer).1 ps.buffer).1 f = I.evalF ps.w f) ∧
@@ -385,19 +396,20 @@ theorem dispatch_spec (hS : Sound I B) (ps : PS σ) (flush : Bool) :
           else isPrefixOfLonger I (getMatches I ps.w ps.buffer).1 ps.buffer).2 =
           (!flush && (B ps.w).any (PL (I.evalF ps.w) (keysOf ps.buffer)))) := by
       cases flush with
-      | true => simp [g.2.1, g.2.2]
+      | true => simp [g.2.1, g.2.2.1, g.2.2.2]
       | false =>
         simp only [isPrefixOfLonger, Bool.false_eq_true, if_false, Bool.not_false, Bool.true_and]
-        refine ⟨by rw [hS.start_B, g.2.1], fun f => by rw [hS.start_eval, g.2.2], ?_⟩
-        rw [hS.start_val, g.2.1]
+        refine ⟨hS.start_G _ _ g.2.2.2, by rw [hS.start_B _ _ g.2.2.2, g.2.1],
+          fun f => by rw [hS.start_eval _ _ _ g.2.2.2, g.2.2.1], ?_⟩
+        rw [hS.start_val _ _ g.2.2.2, g.2.1]
         unfold matchStarting
         rw [List.any_filter]
         congr 1
         funext c
-        simp only [hS.start_eval, g.2.2, PL, longerB]
+        simp only [hS.start_eval _ _ _ g.2.2.2, g.2.2.1, PL, longerB]
     generalize (if flush = true then ((getMatches I ps.w ps.buffer).1, false)
           else isPrefixOfLonger I (getMatches I ps.w ps.buffer).1 ps.buffer) = r2 at h2
-    obtain ⟨hB2, hE2, hP2⟩ := h2
+    obtain ⟨hG2, hB2, hE2, hP2⟩ := h2
     have hev2 : I.evalF r2.1 = I.evalF ps.w := funext hE2
     simp only [hev2]
     -- eager matches
@@ -417,7 +429,7 @@ theorem dispatch_spec (hS : Sound I B) (ps : PS σ) (flush : Bool) :
       | some b =>
         simp only []
         rw [hlast] at hel
-        exact ⟨.eager hne (pickR_some hel.symm), hB2, hE2⟩
+        exact ⟨.eager hne (pickR_some hel.symm), hB2, hE2, hG2⟩
     | nil =>
       simp only [List.isEmpty_nil, if_true]
       rw [he] at hel
@@ -426,7 +438,7 @@ theorem dispatch_spec (hS : Sound I B) (ps : PS σ) (flush : Bool) :
       · simp only [hw, if_true]
         rw [hP2] at hw
         simp only [Bool.and_eq_true, Bool.not_eq_true', List.any_eq_true] at hw
-        exact ⟨.wait hne hnoE hw.1 hw.2, hB2, hE2⟩
+        exact ⟨.wait hne hnoE hw.1 hw.2, hB2, hE2, hG2⟩
       · simp only [hw]
         have hnoL : flush = true ∨ ∀ c ∈ B ps.w, PL (I.evalF ps.w) (keysOf ps.buffer) c = false := by
           rw [hP2] at hw
@@ -441,29 +453,30 @@ theorem dispatch_spec (hS : Sound I B) (ps : PS σ) (flush : Bool) :
         | some b =>
           simp only []
           rw [hm] at gl
-          exact ⟨.exact hne hnoE hnoL (pickR_some gl.symm), hB2, hE2⟩
+          exact ⟨.exact hne hnoE hnoL (pickR_some gl.symm), hB2, hE2, hG2⟩
         | none =>
           simp only []
           rw [hm] at gl
           have hnoA := pickR_none.mp gl.symm
-          have sc := scan_sound hS ps.buffer ps.buffer.length r2.1
+          have sc := scan_sound hS ps.buffer ps.buffer.length r2.1 hG2
           rw [hB2, hev2] at sc
           cases hs : (scan I ps.buffer ps.buffer.length r2.1).2 with
           | none =>
             simp only [hs] at sc ⊢
-            exact ⟨.drop hne hnoL sc.2.2, sc.1, sc.2.1⟩
+            exact ⟨.drop hne hnoL sc.2.2.2, sc.2.1, sc.2.2.1, sc.1⟩
           | some r =>
             obtain ⟨i, b⟩ := r
             simp only [hs] at sc ⊢
-            obtain ⟨s1, s2, a1, a2, a3, a4⟩ := sc
-            exact ⟨.prefix hne hnoL hnoA a1 a2 a3 a4, s1, s2⟩
+            obtain ⟨s0, s1, s2, a1, a2, a3, a4⟩ := sc
+            exact ⟨.prefix hne hnoL hnoA a1 a2 a3 a4, s1, s2, s0⟩
 end
 
 /-! ### non-vacuity -/
 
 /-- the toy world has sound lookups over its flat binding list -/
-theorem toy_sound : Sound toyI (fun _ => toyBs) :=
-  ⟨fun _ _ => rfl, fun _ _ => rfl, fun _ _ _ => rfl, fun _ _ => rfl, fun _ _ => rfl, fun _ _ _ => rfl⟩
+theorem toy_sound : Sound toyI (fun _ => toyBs) (fun _ => True) :=
+  ⟨fun _ _ _ => rfl, fun _ _ _ => rfl, fun _ _ _ _ => rfl, fun _ _ _ => trivial,
+   fun _ _ _ => rfl, fun _ _ _ => rfl, fun _ _ _ _ => rfl, fun _ _ _ => trivial⟩
 
 /-- each branch of the rule occurs in the toy world:
     `a` waits (for `a b`), `a` + timeout fires h0, `b` fires eager h3, `a c` re-examines and fires h0
